@@ -151,7 +151,7 @@ func (g *histGen) read() {
 	case 0, 1, 2:
 		g.add("AT", itoa(i), itoa(g.safePosit(v.term())))
 	case 3, 4:
-		kinds := []string{"F", "F", "F"}
+		kinds := []string{"F", "F", "F", "P"}
 		if v.term() && (g.capReads == 0 || v.hi <= 50) {
 			kinds = append(kinds, "B", "B")
 			if g.ver == "v1" {
